@@ -183,8 +183,29 @@ def run(ctx):
         p, _, _ = pg.make(n=n)
         if rng.random() < 0.7:
             p = p[:3] + (p[3][:4] + ((gen.pick(rng, TIME_NUMS), gen.pick(rng, ('s', 'ms'))),),)
+        own_alias_use = None
+        if n % 6 == 0:
+            # the event's own alias used bare (the current message as a function argument) or on a field named like a
+            # constant: both are only expressible through the alias
+            pos = A.prop_positions(p)
+            cands = [(q, i) for q, ev in pos.items() for i, se in enumerate(A.simple_events(ev)) if se[2] is not None]
+            if cands:
+                q, i = gen.pick(rng, cands)
+                alts = list(A.simple_events(pos[q]))
+                a = alts[i][2]
+                own_alias_use = gen.pick(rng, ('bare-message', 'constant-named-field'))
+                atom = (('bin', '>', ('call', gen.pick(rng, ('roll', 'pitch', 'yaw')), (A.var(a),)), A.num('0'))
+                        if own_alias_use == 'bare-message' else
+                        ('bin', '>', ('field', A.var(a), gen.pick(rng, ('E', 'PI', 'INF', 'NAN'))), A.num('0')))
+                pred = atom if alts[i][3] is None else ('bin', 'and', alts[i][3], atom)
+                alts[i] = ('ev', alts[i][1], a, pred)
+                events = dict(pos)
+                events[q] = alts[0] if pos[q][0] != 'disj' else ('disj', tuple(alts))
+                p = gen.assemble(p[2][1], p[3][1], events, p[3][4], p[1])
         props.append(p)
         feats = prop_features(p) | {'api:property'}
+        if own_alias_use:
+            feats.add('shape:own-alias-' + own_alias_use)
         text = A.layout(A.prop_tokens(p), rng, 'random')
 
         def shrinker(kind, p=p):
@@ -233,7 +254,9 @@ def run(ctx):
             chains += level1
             for c in level1:
                 level2 = [('field', c, n) for n in names] + [('index', c, A.num(i)) for i in ('0', '1')] + [
-                    ('index', c, A.fld('i'))]
+                    ('index', c, A.fld('i'))] + [('index', ('index', c, A.num(i)), A.num(j)) for i, j in (('0', '1'), ('1', '0'), ('2', '2'))] + [
+                    ('field', ('index', ('index', ('index', c, A.num('1')), A.num('2')), A.num('3')), 'v'),
+                    ('index', ('index', c, A.fld('i')), A.fld('j'))]
                 chains += level2
                 for c2 in level2:
                     chains += [('field', c2, n) for n in names] + [('index', c2, A.num('0'))]
@@ -249,3 +272,7 @@ def run(ctx):
                 ctx.begin_case(())
                 ctx.violation('print-collision', {'a': repr(printed[s]), 'b': repr(c), 'printed': s}, ())
             printed[s] = c
+            kind, detail, _, _ = roundtrip(P['expression'], P['expression'], A.render_expr(c, style='tight'))
+            if kind not in (None, 'rejected'):
+                ctx.begin_case(('shape:reference-chain',))
+                ctx.violation(kind, {'level': 'expression', 'text': A.render_expr(c), 'detail': detail}, ('shape:reference-chain',))
